@@ -8,7 +8,8 @@ rows = ["%d changes to gorilla/websocket were written by sub-agents that were gi
         "the pinned suite passing, make the failure need something specific, and demonstrate it with a test. Round 1:",
         "two per property (`seeded/Cxx-n`); round 2, after the machinery had been strengthened and three more defects",
         "repaired: three per property, asked for mechanisms a reviewer would not think of first (`seeded/Cxx-r2n`);",
-        "round 3: thirty more, each agent confined to one file other than conn.go (`seeded/Cxx-r3<file>n`).",
+        "round 3: thirty more, each agent confined to one file other than conn.go (`seeded/Cxx-r3<file>n`); round 4: twenty",
+        "more, cooperating edits and history-dependent leaks (`seeded/Cxx-r4n`).",
         "Each was confirmed (demo passes on the clean tree and fails with the change; suite passes with it), stored",
         "with `patch.diff`, `demo_test.go`, `meta.json`, and run against the property's quick check with",
         "`tools/seedrun.sh` (apply to /repo, check, `git checkout -- .`). `tools/seedall.py` re-runs them all and",
@@ -77,7 +78,26 @@ only when the failing read returns after the context has expired: fault kind "th
 deadline has passed"), C18-r3proxy181 (2xx CONNECT replies taken for success: every reply class is tried and
 clause 166 counts what the client still sends after a refusal), C18-r3proxy183 (SOCKS5 first hop bypassing the
 caller's dial function: clause 165), C19-r3prep1 (payload copy off by six at exactly 65536 bytes: 64 KiB
-payloads in the generator).""")
+payloads in the generator).
+
+Round 4: twenty more (`seeded/Cxx-r4n`), asked for two cooperating edits at different sites, history-dependent
+state leaks needing three or more calls or frames, or role-and-configuration-specific behaviour - no
+single-line boundary tweaks. Eight were missed at first: C02-r41 (a control-type writer fed by ReadFrom on the
+smallest buffer is fragmented: control writers fed by ReadFrom are now generated - which exhibited the defect
+fixed in a3660fa on the unchanged tree), C04-r41 (an invalid close code with a reason of 100 bytes or more: the
+1002 close would exceed 125 bytes and was dropped; long reasons generated), C06-r42 (ReadMessage pre-sizing
+its buffer from the claimed length: new serial harness C06a reads TotalAlloc around one read of a frame that
+claims 32 MiB .. 2^63-1 bytes; it also turns C06-r22 into a concrete input), C08-r42 (control payloads counted
+against the read limit: C08 cases now set a limit every message fits under), C12-r41 (a subprotocol set
+cached on the Upgrader across reconfiguration) and C15-r42 (the extension line parked in the application's
+response-header map): a third of the C12 cases now run after a warm-up handshake on the same Upgrader value and
+the same header map under another configuration, and the C12 harness also runs under C15; C17-r41 (the
+hijacked reader read beyond what it has buffered: half of the non-reuse cases hand out a bufio.Reader whose
+source is not the connection), C17-r42 (client read buffers below 125 bytes), C20-r42 (a remembered pool item
+returned in place of the connection's own buffer after another connection had taken it: the interleaved
+multi-connection harness C02m shares one BufferPool in half of its cases and is judged by C20's predicates
+too). C12-r23 / C12-r3util123 (backslash escapes in quoted extension parameters) are now concrete inputs as
+well: the Spec's list splitting knows quoted strings.""")
 sec = open('/verif/tools/design_sec11.md').read().replace('SEEDED_TABLE', '\n'.join(rows))
 d = open('/verif/DESIGN.md').read()
 d = re.sub(r'## 11\. As built.*?(?=## Appendix A\.)', '', d, flags=re.S)
